@@ -1,7 +1,7 @@
 (* C02 - PoSER merging: gen.merge_mode_shapes, gen.MSF (as used there), gen.flatten_sns_names (list forms),
    MultiSetup_PoSER.merge_results statistics.  Definitions only.
    Mode shapes are complex (pairs over the carrier); scale factors are real.                                      *)
-From Coq Require Import List Arith Lia Bool String DecimalString Decimal.
+From Coq Require Import List Arith ZArith Lia Bool String DecimalString Decimal.
 From PyOMA.Base Require Import Carrier Cplx.
 Import ListNotations.
 
@@ -36,15 +36,61 @@ Definition merge_col (col0:list C) (rf0:list nat) (rest:list (list C * list nat)
 Definition merge_modes (rf0:list nat) (rfs:list (list nat)) (modes:list (list C * list (list C))) : list (list C) :=
   map (fun m => merge_col (fst m) rf0 (combine (snd m) rfs)) modes.
 
+(* ---- the function as called: MSarr_list[i] is a (sensors x modes) table, the result is (rows x modes) ----
+   ValueError: mode counts differ, or the pre-computed row count M = Nref + sum(N_i - Nref) is not the length of the
+   concatenated column (NumPy cannot broadcast the assignment); IndexError: a reference position outside a setup's
+   rows or fewer reference lists than setups.  (Negative positions are not modelled: the harness never generates them.) *)
+Definition colk (k:nat) (M:list (list C)) : list C := map (fun r => nth k r (c0 K)) M.
+Definition nmodes (M:list (list C)) : nat := List.length (hd [] M).
+Definition same_modes (nm:nat) (Ms:list (list (list C))) : bool := forallb (fun M => Nat.eqb (nmodes M) nm) Ms.
+Definition refs_in_range (Ms:list (list (list C))) (rfs:list (list nat)) : bool :=
+  forallb (fun Mr => forallb (fun i => Nat.ltb i (List.length (fst Mr))) (snd Mr)) (combine Ms rfs).
+Definition merge_cols (M0:list (list C)) (Ms:list (list (list C))) (rf0:list nat) (rfs:list (list nat)) (nm:nat) : list (list C) :=
+  merge_modes rf0 rfs (map (fun k => (colk k M0, map (colk k) Ms)) (seq 0 nm)).
+Definition zsum (l:list Z) : Z := fold_right Z.add 0%Z l.
+Definition rows_code (nref:nat) (Ms:list (list (list C))) : Z :=
+  (Z.of_nat nref + zsum (map (fun M => Z.of_nat (List.length M) - Z.of_nat nref) Ms))%Z.
+Definition rows_act (Ms:list (list (list C))) (rfs:list (list nat)) : nat :=
+  list_sum (map (fun Mr => List.length (drop_at (fst Mr) (snd Mr) 0)) (combine Ms rfs)).
+Inductive merge_res := MergeOk (m:list (list C)) | MergeValueErr | MergeIndexErr.
+Definition merge_mode_shapes (MS:list (list (list C))) (refl:list (list nat)) : merge_res :=
+  match MS, refl with
+  | M0::Ms, rf0::rfs =>
+    let nm := nmodes M0 in
+    if negb (same_modes nm Ms) then MergeValueErr
+    else if negb (Nat.leb (List.length Ms) (List.length rfs)) then MergeIndexErr
+    else if negb (refs_in_range (M0::Ms) (rf0::rfs)) then MergeIndexErr
+    else
+      let mact := (List.length rf0 + rows_act (M0::Ms) (rf0::rfs))%nat in
+      let cols := merge_cols M0 Ms rf0 rfs nm in
+      if Z.eqb (rows_code (List.length rf0) (M0::Ms)) (Z.of_nat mact)
+      then MergeOk (tab2 mact nm (fun r k => nth r (nth k cols []) (c0 K)))
+      else MergeValueErr
+  | _, _ => MergeIndexErr
+  end.
+
 (* merge_results statistics over the setups: mean, population variance (std^2) *)
 Fixpoint rsum (l:list R) : R := match l with [] => o0 K | x::t => oadd K x (rsum t) end.
 Definition mean (n:R) (l:list R) : R := odiv K (rsum l) n.
 Definition pvar (n:R) (l:list R) : R := let m := mean n l in odiv K (rsum (map (fun x => omul K (osub K x m) (osub K x m)) l)) n.
+(* (std/mean)^2: the reported dispersion, squared (the square root is taken on the harness side) *)
+Definition cov2 (n:R) (l:list R) : R := odiv K (pvar n l) (omul K (mean n l) (mean n l)).
+(* the number of setups as an element of the carrier *)
+Definition ofnat (n:nat) : R := rsum (repeat (o1 K) n).
+(* np.mean(all, axis=0), (np.std(all, axis=0)/mean)^2 for all = one row per setup, one entry per mode *)
+Definition poser_stats (rows:list (list R)) : list (R * R) :=
+  let n := ofnat (List.length rows) in
+  map (fun k => let c := map (fun r => nth k r (o0 K)) rows in (mean n c, cov2 n c)) (seq 0 (List.length (hd [] rows))).
 End Merge.
 
 Arguments cdotl {R} K u v. Arguments msf {R} K phi1 phi2. Arguments rscale {R} K a l.
 Arguments merge_col {R} K col0 rf0 rest. Arguments merge_modes {R} K rf0 rfs modes.
 Arguments rsum {R} K l. Arguments mean {R} K n l. Arguments pvar {R} K n l.
+Arguments colk {R} K k M. Arguments nmodes {R} M. Arguments same_modes {R} nm Ms. Arguments refs_in_range {R} Ms rfs.
+Arguments merge_cols {R} K M0 Ms rf0 rfs nm. Arguments rows_code {R} nref Ms. Arguments rows_act {R} Ms rfs.
+Arguments MergeOk {R} m. Arguments MergeValueErr {R}. Arguments MergeIndexErr {R}.
+Arguments merge_mode_shapes {R} K MS refl.
+Arguments cov2 {R} K n l. Arguments ofnat {R} K n. Arguments poser_stats {R} K rows.
 
 (* gen.flatten_sns_names, multi-setup (list of lists) form: REF1..REFk then every setup's non-reference names *)
 Local Open Scope string_scope.
